@@ -8,7 +8,7 @@
     flavour for the tree jsoniter's typed decoders see.
     Numbers.  Wherever jsoniter meets a number in these documents it skips it (an unknown member,
     inside a json.RawMessage) or fails because it wanted something else.  Its strict skipNumber
-    lets a token of digits and dots pass; any other token (sign, exponent) goes through
+    lets a token pass whose characters after the first are digits and dots; any other token (exponent) goes through
     ReadFloat64 and is an error when strconv.ParseFloat says "out of range" ([in_range], an
     uninterpreted function: the harness tabulates it).
     No proofs in this file. *)
@@ -19,7 +19,12 @@ Import ListNotations.
 Open Scope N_scope.
 
 
-Definition plain_number (tok : bytes) : bool := forallb (fun c => Transport.JsonText.is_digit c || (c =? 46)) tok.
+(** Skip has already consumed the first character (a minus or a digit) when trySkipNumber scans *)
+Definition plain_number (tok : bytes) : bool :=
+  match tok with
+  | [] => true
+  | _ :: rest => forallb (fun c => Transport.JsonText.is_digit c || (c =? 46)) rest
+  end.
 Definition number_ok (in_range : bytes -> bool) (tok : bytes) : bool := plain_number tok || in_range tok.
 (** JsonText keeps of a number token only [numval tok]; here: accepted by jsoniter or not *)
 Definition numval_of (in_range : bytes -> bool) (tok : bytes) : option N :=
